@@ -13,8 +13,8 @@ from .. import simfs
 INF = float("inf")
 MAP_TRACED = ("/tracklib/algo/mapping.py", "/tracklib/algo/dynamics.py")
 C06_OPS = ("dist", "dist_all", "all_pairs", "prepare", "prepared")
-C07_OPS = ("path", "path_multi")
-C10_OPS = ("map", "remap")
+C07_OPS = ("path", "path_multi", "forward", "backward")
+C10_OPS = ("map", "remap", "map_span")
 OTHER_OPS = ("add_edge", "reload", "index", "simplify", "sub_network", "set_weight", "save_prep", "load_prep", "rescale", "abs_again", "set_routing")
 
 
@@ -166,7 +166,17 @@ class NetWorld(World):
         return tuple(out)
 
     # ------------------------------------------------ invariant after every step
+    # steps after which the labels of an earlier run_routing_forward are still the ones it left
+    KEEPS_LABELS = ("backward", "prepared", "set_routing", "index", "map", "remap", "map_span", "save_prep",
+                    "load_prep", "abs_again")
+
     def execute(self, step):
+        s_ = step.get("s", 0)
+        m_ = self.model.get(s_)
+        keep = step["op"] in self.KEEPS_LABELS or (step["op"] == "sub_network" and step.get("mode") == "GEOMETRIC"
+                                                   and step.get("to") is None)
+        if m_ is not None and m_.get("fwd") and not keep and step["op"] != "forward":
+            m_["fwd"] = None          # a search, a growth step, a reload ...: the labels are no longer those of the forward pass
         out = World.execute(self, step)
         if not self.violations and out[0] not in ("skipped", "hang"):
             saved = self.cur
@@ -325,6 +335,15 @@ class NetWorld(World):
                 t0 = r.randrange(64)
                 return {"op": "path_multi", "s": s, "a": r.randrange(64),
                         "targets": [t0 + i for i in range(k)] if k > 4 else [r.randrange(64) for _ in range(k)]}
+            u = r.random()
+            if u < 0.12:
+                return {"op": "forward", "s": s, "a": r.randrange(64)}
+            if u < 0.3 and m.get("fwd"):
+                return {"op": "backward", "s": s, "b": r.randrange(64)}
+            if u < 0.36 and m.get("fwd") and m["index"] is None:
+                # between the two phases another user takes a geometric extract of the same network
+                return {"op": "sub_network", "s": s, "a": r.randrange(64), "cut": self._gen_cut(r, m),
+                        "mode": "GEOMETRIC", "to": None}
             return {"op": "path", "s": s, "a": r.randrange(64), "b": r.randrange(64),
                     "as_node": r.random() < 0.2, "rec": r.random() < 0.2, "scribble": r.random() < 0.25}
         # C10: needs abs_curv on every edge, an index and prepared distances
@@ -336,6 +355,9 @@ class NetWorld(World):
             pc = self.cfg.get("prep_cut")
             return {"op": "prepare", "s": s, "cut": 1e300 if pc is None else pc * self.cfg["step"]}
         slot = r.randrange(2)
+        if (s, 1 - slot) in self.tracks and r.random() < 0.12:
+            return {"op": "map_span", "s": s, "slot": slot, "noise": r.choice([1, 10, 50]),
+                    "radius": self._gen_radius(r), "tcost": r.choice([1, 10])}
         if (s, slot) in self.tracks and r.random() < 0.35:
             return {"op": "remap", "s": s, "slot": slot, "noise": r.choice([1, 10, 50]),
                     "radius": self._gen_radius(r), "tcost": r.choice([1, 10])}
@@ -365,7 +387,7 @@ class NetWorld(World):
 
     def _gen_radius(self, r):
         st = self.cfg["step"]
-        return r.choice([1.0, 5.0, st / 2, st, 3 * st])
+        return r.choice([1.0, 5.0, st / 2, st, 3 * st, 5e-4])
 
     def _g_add_edge(self, r, s, m):
         cfg = self.cfg
@@ -420,6 +442,15 @@ class NetWorld(World):
     def _gen_track(self, r, m):
         st = self.cfg["step"]
         g = self.cfg["grid"]
+        if m["edges"] and r.random() < 0.06:
+            # a receiver creeping away from the road in steps below a tenth of a millimetre
+            pts = r.choice(m["edges"])["pts"]
+            a, b = pts[0], pts[1]
+            L = math.dist(a, b) or 1.0
+            nx, ny = -(b[1] - a[1]) / L, (b[0] - a[0]) / L
+            u = r.uniform(0.2, 0.8)
+            x0, y0 = a[0] + u * (b[0] - a[0]), a[1] + u * (b[1] - a[1])
+            return [[x0 + nx * k * 9e-5, y0 + ny * k * 9e-5] for k in range(r.choice([12, 20, 30]))]
         n = r.choice([1, 2, 3, 5, 9])
         x, y = r.uniform(0, (g - 1) * st), r.uniform(0, (g - 1) * st)
         obs = []
@@ -724,6 +755,37 @@ class NetWorld(World):
             if exc is None and d != INF and not self._deq(m, rd, d):
                 self.fail("C07", "path.distance", "shortest_distance after shortest_path", d, rd)
 
+    def op_forward(self, st):
+        """First phase of the documented two-phase API, as a step of its own: other steps that
+        do not search this network may come before the reconstructions."""
+        net, m = self._sess_exact(st)
+        if m.get("shared"):
+            raise Skip()            # an extracted sub-network shares its Node objects (labels) with its parent
+        a = self._node(m, st["a"])
+        m["last_source"] = a
+        _, exc = self.call(net.run_routing_forward, a)
+        if exc is not None:
+            return self._unexpected("C07", exc, "run_routing_forward(%s)" % a)
+        m["fwd"] = {"src": a, "nodes": list(m["nodes"])}
+        self.observed(a)
+
+    def op_backward(self, st):
+        net, m = self._sess_exact(st)
+        f = m.get("fwd")
+        if not f or m.get("shared"):
+            raise Skip()
+        ids = f["nodes"]
+        b = ids[st["b"] % len(ids)]
+        if b == f["src"]:
+            raise Skip()
+        rv, exc = self.call(net.run_routing_backward, b)
+        if exc is not None:
+            return self._unexpected("C07", exc, "run_routing_backward(%s), some steps after run_routing_forward(%s)"
+                                    % (b, f["src"]))
+        self.probe("reconstruction_some_steps_after_the_search")
+        self._judge_path(m, f["src"], b, rv, "run_routing_backward(%s), some steps after run_routing_forward(%s)"
+                         % (b, f["src"]))
+
     def op_path_multi(self, st):
         """One forward search from a, then several backward reconstructions: the
         documented two-phase API; every reconstruction reads the labels the
@@ -898,7 +960,8 @@ class NetWorld(World):
         self.observed([e["id"], st["w"]])
 
     def _prep_path(self, st):
-        return "/sim/prep_%d_%d" % (st.get("s", 0), st.get("slot", 0))
+        # slot 0: "town", slot 1: "town.v1" -- a dotted name next to a file under its stem
+        return "/sim/prep_%d" % st.get("s", 0) + (".v1" if st.get("slot", 0) else "")
 
     def _armed(self, st):
         self.fs.plan.arm(st.get("fault"))
@@ -1101,6 +1164,8 @@ class NetWorld(World):
             e["pts"] = pts          # adopted, whatever the simplifier kept (C16's subject)
         m["all_abs"] = False
         m["index"] = None if m["index"] is None else m["index"]
+        for k in [k for k in self.tracks if k[0] == st.get("s", 0)]:
+            del self.tracks[k]              # states decoded on the old geometries say nothing any more
 
     # ------------------------------------------------------------------ C10 ops
     def _extent(self, m):
@@ -1218,6 +1283,20 @@ class NetWorld(World):
             if nm is None:
                 return
             total += nm
+        for k2, v in self.tracks.items():
+            if any(v["real"] is g for g, _ in group):
+                v["radius"], v["z"] = (50 if st.get("defaults") else radius), st.get("z", v.get("z", 0.0))
+        # every track matched earlier (by this or another session) still carries the states that
+        # were decoded for *it*: a matching never reaches into another track
+        for k2, v in sorted(self.tracks.items()):
+            if "radius" not in v or any(v["real"] is g for g, _ in group) or k2[0] not in self.model:
+                continue
+            snap2 = [(o.position.getX(), o.position.getY(), o.position.getZ(), o.timestamp.toAbsTime())
+                     for o in v["real"]]
+            if self._judge_mapping(v["real"], v["obs"], snap2, self.model[k2[0]], v["radius"],
+                                   "%s (states of the track matched earlier in slot %s)" % (where, list(k2))) is None:
+                return
+            self.probe("earlier_matching_re_judged")
         self.stats["matched_observations"] += total
         self.observed([total, sum(len(ob) for _, ob in group)])
 
@@ -1269,6 +1348,22 @@ class NetWorld(World):
 
     def op_map(self, st):
         return self._map(st, st["obs"], "map")
+
+    def op_map_span(self, st):
+        """A second user takes a time-window copy (extractSpanTime over the whole duration) of a
+        track that has been matched and matches the copy with his own parameters: the copy is an
+        independent track, the original keeps the states decoded for it."""
+        from tracklib.core import ObsTime
+        s = st.get("s", 0)
+        src = self.tracks.get((s, 1 - st.get("slot", 0)))
+        if src is None or "radius" not in src or s not in self.model:
+            raise Skip()
+        cp, exc = self.call(src["real"].extractSpanTime, ObsTime(1970, 1, 1, 0, 0, 0), ObsTime(2099, 1, 1, 0, 0, 0))
+        if exc is not None or cp is None or cp.size() != len(src["obs"]):
+            raise Skip()
+        self.tracks[(s, st.get("slot", 0))] = {"real": cp, "obs": [list(o) for o in src["obs"]], "z": src.get("z", 0.0)}
+        self.probe("time_window_copy_of_a_matched_track_is_matched")
+        return self._map(dict(st, z=src.get("z", 0.0)), src["obs"], "remap")
 
     def op_remap(self, st):
         key = (st.get("s", 0), st.get("slot", 0))
